@@ -1295,3 +1295,43 @@ def _dur_is_zero(ex, c):
 def _dur_as_millis(ex, c):
     d = deref(ex, c.args[0])
     return BV(z3.ZeroExt(64, d.fields[0].t) * 1000 + z3.ZeroExt(96, z3.UDiv(d.fields[1].t, z3.BitVecVal(1000000, 32))))
+
+
+@summary("core::slice::get", "Vec::get")
+def _slice_get(ex, c):
+    base = base_seq_ref(ex, c.args[0])
+    seq = ex.load(base)
+    idx = c.args[1]
+    n = len(seq.items)
+    if isinstance(idx, Adt):
+        kind = base_type_name(idx.ty)
+        vals = [z3.simplify(f.t) for f in idx.fields]
+        if not all(z3.is_bv_value(v) for v in vals):
+            raise Unsupported("slice::get with a symbolic range")
+        vals = [v.as_long() for v in vals]
+        if kind == "RangeTo":
+            a, b = 0, vals[0]
+        elif kind == "RangeFrom":
+            a, b = vals[0], n
+        elif kind == "Range":
+            a, b = vals
+        else:
+            raise Unsupported("slice::get with " + kind)
+        if a > b or b > n:
+            return NONE()
+        return some(Ref(Cell(Seq(seq.items[a:b], "slice"))))
+    v = z3.simplify(idx.t)
+    if not z3.is_bv_value(v):
+        raise Unsupported("slice::get with a symbolic index")
+    if v.as_long() >= n:
+        return NONE()
+    return some(Ref(base.cell, base.path + (("i", v.as_long()),)))
+
+
+@summary("u16::from_be_bytes", "core::num::from_be_bytes")
+def _from_be(ex, c):
+    seq = deref(ex, c.args[0])
+    t = seq.items[0].t
+    for b in seq.items[1:]:
+        t = z3.Concat(t, b.t)
+    return BV(t)
